@@ -28,7 +28,39 @@ func (g *Gen) closureEffects(fn *ssa.Function, depth int) closureEffect {
 	for i, fv := range fn.FreeVars {
 		fvIdx[fv] = i
 	}
+	// an address inside an object the closure allocated itself is invisible to the caller's pre-state
+	var ownAlloc func(a ssa.Value) bool
+	ownAlloc = func(a ssa.Value) bool {
+		switch x := a.(type) {
+		case *ssa.Alloc:
+			return true
+		case *ssa.FieldAddr:
+			return ownAlloc(x.X)
+		case *ssa.IndexAddr:
+			if _, isPtr := x.X.Type().Underlying().(*types.Pointer); isPtr {
+				return ownAlloc(x.X)
+			}
+		}
+		return false
+	}
+	addStructFields := func(t types.Type) bool {
+		stt, isSt := structOf(t)
+		if !isSt || !g.structTransparent(t) {
+			return false
+		}
+		for i := 0; i < stt.NumFields(); i++ {
+			hn, vs, ft := g.fieldHeap(t, i)
+			if _, nested := structOf(ft); nested {
+				return false
+			}
+			ce.heaps[hn] = "(Array Int " + vs + ")"
+		}
+		return true
+	}
 	addHeapForAddr := func(a ssa.Value) {
+		if ownAlloc(a) {
+			return
+		}
 		switch x := a.(type) {
 		case *ssa.FreeVar:
 			ce.cells[fvIdx[x]] = true
@@ -36,7 +68,9 @@ func (g *Gen) closureEffects(fn *ssa.Function, depth int) closureEffect {
 			st := x.X.Type().Underlying().(*types.Pointer).Elem()
 			hn, vs, ft := g.fieldHeap(st, x.Field)
 			if _, isSt := structOf(ft); isSt {
-				ce.wild = true
+				if !addStructFields(ft) {
+					ce.wild = true
+				}
 				return
 			}
 			ce.heaps[hn] = "(Array Int " + vs + ")"
@@ -48,8 +82,14 @@ func (g *Gen) closureEffects(fn *ssa.Function, depth int) closureEffect {
 			case *types.Pointer:
 				et = u.Elem().Underlying().(*types.Array).Elem()
 			}
-			if _, isSt := structOf(et); isSt || et == nil {
+			if et == nil {
 				ce.wild = true
+				return
+			}
+			if _, isSt := structOf(et); isSt {
+				if !addStructFields(et) {
+					ce.wild = true
+				}
 				return
 			}
 			h, s := g.elemHeap(et)
